@@ -111,3 +111,20 @@ Theorem C15_boundary_cd :
       (forall x, nth_error front i0 = Some x -> In x sel) /\ (forall x, nth_error front i1 = Some x -> In x sel).
 Proof. exact cd_boundary_kept. Qed.
 Print Assumptions C15_boundary_cd.
+
+(* ---- "pruning one at a time" for the mnn / 2nn metrics of the pure-Python engine: [mnn_remaining] is the set of points left
+   after the loop of misc/mnn.py has removed clamp(n_remove) - 1 points, each the least crowded of its time, recomputing the
+   others after every removal.  Removing a point never decreases the value of a remaining one (mnn_row_mono), so in the FINAL
+   vector every removed point is <= every remaining point: the cut of RankAndCrowding (drop the n_remove smallest, any
+   tie-break among equal values) drops the removed points and then the least crowded remaining one. ---- *)
+From PV Require Import Proofs.MonoP.
+Theorem C15_pruning_order_mnn_fallback :
+  forall (twonn : bool) (F : list (list eq)) m (n_remove : Z),
+    fin_matrix F m -> 2 <= m -> length (hd [] F) = m -> (if twonn then 2 else m) < length F ->
+    let d := fallback_mnn (X := EQx) twonn F n_remove in
+    let Hf := mnn_remaining twonn F n_remove in
+    NoDup Hf /\ (forall i, In i Hf -> i < length F) /\
+    length Hf + (clamp_remove n_remove (length F) m - 1) = length F /\
+    forall r p, r < length F -> ~ In r Hf -> In p Hf -> gle (nth r d ENaN) (nth p d ENaN).
+Proof. exact fallback_mnn_pruning_order. Qed.
+Print Assumptions C15_pruning_order_mnn_fallback.
